@@ -590,6 +590,21 @@ def verify_frame(fr, tier="quick"):
             if grecs:
                 d["witness"] = grecs[:8]
             res.obligations.append(d)
+        for variant, defaults in ((("", ()),) + ((("_with_default_arguments", tuple(fr.use_defaults)),) if fr.use_defaults else ())) if fr.owned else ():
+            o = frames.check_owned(fr.target_fn, fr.owned, use_defaults=defaults)
+            if o["error"]:
+                res.error, res.error_kind = "frame analysis: " + o["error"], "subset"
+                return res
+            for attr in fr.owned:
+                bad = o["shared"].get(attr)
+                d = {"name": "%s#frame/new_object_owns_%s%s" % (fr.target, attr.lstrip("_"), variant), "instance": 0, "kind": "frame", "line": r["line"], "text": "",
+                     "status": "refuted" if (bad or attr in o["missing"]) else "proved", "backend": "frames", "seconds": 0.0}
+                if bad:
+                    d["witness"] = ["the object stored in .%s may be %s itself (not a copy): a later change through the new object changes it" % (
+                        attr, ", ".join("the argument " + b if ":" not in b else b for b in bad))]
+                elif attr in o["missing"]:
+                    d["witness"] = ["attribute .%s is not assigned by the constructor" % attr]
+                res.obligations.append(d)
         res.notes.append("functions analysed (callees inlined): %d" % len(r["functions"]))
     except KeyError as e:
         res.error, res.error_kind = "frame target not found: %s" % e, "subset"
